@@ -91,6 +91,13 @@ let eval (op : string) (a : string list) : string =
        | None -> "ERR norecord"
        | Some bs -> show_written bs)
     else show_written (proto_v1 comp attrs now rs)
+  | "wv", [pv; attrs; now; orc; recs] ->
+    (* Client.Produce / Writer at a negotiated Produce version: the model picks the format *)
+    parse_oracle orc;
+    let rs = parse_irecs recs in
+    (match proto_produce comp (z_of_hex pv) (z_of_hex attrs) (z_of_hex now) rs with
+     | None -> "ERR norecord"
+     | Some bs -> show_written bs)
   | ("wl" | "wc"), [ver; codec; orc; recs] ->
     parse_oracle orc;
     let rs = parse_irecs recs in
